@@ -226,6 +226,18 @@ def record_problems(o, P):
     ndet = 0
     for cname, conf in o.mol.conformations.items():
         if cname == "AVR":
+            # the reported average: means of in-range values are in range, signs survive averaging
+            for g in conf.groups:
+                q = g.charge
+                if not (0.0 <= g.buried <= 1.0 + 1e-12):
+                    probs.append("AVR %s buried %r" % (g.label, g.buried))
+                if (q < 0 and g.energy_volume < -1e-12) or (q > 0 and g.energy_volume > 1e-12):
+                    probs.append("AVR %s desolvation %r with charge %r" % (g.label, g.energy_volume, q))
+                if g.energy_local < -1e-12:
+                    probs.append("AVR %s local desolvation %r" % (g.label, g.energy_local))
+                for d in g.determinants['backbone']:
+                    if d.value * q < -1e-12:
+                        probs.append("AVR %s backbone determinant %r (charge %r)" % (g.label, d.value, q))
             continue
         by_label = {}
         for g in conf.groups:
@@ -279,13 +291,21 @@ def run(ctx):
     from propka.input import read_parameter_file
     P = read_parameter_file("propka.cfg", Parameters())
     rnd = ctx.rng
-    inputs = [(n, t) for n, t in pdbgen.test_files(["1HPX", "3SGB-subset", "1FTJ-Chain-A"] if ctx.quick() else ["1HPX", "3SGB", "4DFR", "1FTJ-Chain-A", "sample-issue-140"])]
+    inputs = [(n, t) for n, t in pdbgen.test_files(["1HPX", "3SGB-subset", "1FTJ-Chain-A", "conf-alt-AB"] if ctx.quick() else ["1HPX", "3SGB", "4DFR", "1FTJ-Chain-A", "sample-issue-140", "conf-alt-AB", "conf-model-mutant"])]
+    # a protein-sized structure with two conformations: buried fractions well above zero are averaged
+    big = dict(pdbgen.test_files(["3SGB-subset" if ctx.quick() else "3SGB"]))
+    for n, t in big.items():
+        inputs.append((n + "-altloc", pdbgen.text(pdbgen.altloc_atoms(rnd, pdbgen.lines_of(t), rnd.randint(1, 3)))))
     lib = pdbgen.library()
     hets = [it for k in sorted(lib) if k[1] == "het" for it in lib[k]]
     for i in range(6 if ctx.quick() else 60):
         lines, ids = pdbgen.multichain(rnd, nchains=rnd.randint(1, 3), separation=rnd.choice([10.0, 15.0, 25.0]))
         if i % 2 == 0:
             lines += rnd.choice(hets)[2]
+        if i % 3 == 1:
+            # several conformations: the reported values are then averages
+            from . import c08
+            lines = c08.altloc_variant(rnd, lines, kind=rnd.randrange(2)) if rnd.random() < 0.5 else c08.model_variant(rnd, lines)
         out_text = pdbgen.text(lines)
         inputs.append(("gen%d" % i, out_text))
     bad = []
